@@ -560,6 +560,10 @@ func c04writer(c *Ctx) {
 		})
 	}
 	c.R.Min(rule, 6, "methods of timeoutWriter (Flush, Header, Hijack, Push, Write, WriteHeader, writeHeaderLocked)")
+	// R3h: tw.mu is what the timeout branch of ServeHTTP needs in order to answer; a handler-facing method
+	// that runs the handler's own code (an interface- or function-typed argument: a reader, a callback)
+	// while holding it makes the 503 wait for that code.
+	c04writerNoUserCodeUnderLock(c, named)
 	// Write returns ErrHandlerTimeout when timed out
 	if f := c.fn("C04.R3c", "rest/handler", "(*timeoutWriter).Write"); f != nil {
 		ps := c.paths("C04.R3c", f, px.Config{})
@@ -1179,4 +1183,72 @@ func c04serverDeadline(c *Ctx) {
 		}
 	})
 	c.R.Check(len(wbad) == 0 && wsites >= 1, rule, "rest.(*engine).withTimeout#write-deadline", "http.Server.WriteTimeout is engine.timeout (the longest route timeout) times a factor ≥ 1", posOf(c, f), strings.Join(wbad, "; "), wbad, wsites)
+}
+
+// c04writerNoUserCodeUnderLock (C04.R3h): while a method of timeoutWriter holds tw.mu, it neither invokes
+// nor hands on an interface- or function-typed parameter of its own. tw.mu serialises the handler's
+// output with the timeout branch of ServeHTTP, which must take it to write the 503: code the handler
+// supplied (an io.Reader to copy from, a callback) may block for as long as it likes, and under the mutex
+// it holds up the timeout response. A []byte, a status code or a string cannot block.
+func c04writerNoUserCodeUnderLock(c *Ctx, named *types.Named) {
+	rule := "C04.R3h"
+	text := "no interface- or function-typed argument of a handler-facing method is called, or handed to a call, while tw.mu is held (the timeout branch needs the mutex to answer)"
+	userCode := func(s *px.Sym) (string, bool) {
+		s = s.Strip(true)
+		if s == nil || s.Kind != px.KParam || s.Depth != 0 || s.Typ == nil {
+			return "", false
+		}
+		pr, ok := s.V.(*ssa.Parameter)
+		if !ok || (pr.Parent() != nil && len(pr.Parent().Params) > 0 && pr.Parent().Params[0] == pr && pr.Parent().Signature.Recv() != nil) {
+			return "", false
+		}
+		switch s.Typ.Underlying().(type) {
+		case *types.Interface, *types.Signature:
+			return pr.Name() + " " + typeString(s.Typ), true
+		}
+		return "", false
+	}
+	n := 0
+	for i := 0; i < named.NumMethods(); i++ {
+		m := named.Method(i)
+		f := c.P.FuncOf(m)
+		if f == nil || f.Blocks == nil || !m.Exported() {
+			continue
+		}
+		n++
+		inl := func(ci *px.CallInfo, d int) bool {
+			return ci.Static != nil && ci.Recv != nil && strings.Contains(ci.Static.String(), "timeoutWriter")
+		}
+		ps := c.paths(rule, f, px.Config{Inline: inl, MaxVisits: 1})
+		c.forall(rule, "rest/handler.(*timeoutWriter)."+m.Name()+"#user-code-under-mu", text, f, ps, func(p *px.Path) (bool, string) {
+			held := 0
+			for i := range p.Events {
+				e := &p.Events[i]
+				switch {
+				case lockOn("mu", "Lock")(e):
+					held++
+				case lockOn("mu", "Unlock")(e):
+					held--
+				case e.Kind == px.EvCall && e.Call != nil && held > 0:
+					if e.Call.Recv != nil && e.Call.Method != nil {
+						if d, ok := userCode(e.Call.Recv); ok {
+							return false, "calls " + e.Call.Method.Name() + " on the handler's " + d + " while holding tw.mu at " + c.P.Pos(e.Pos)
+						}
+					}
+					if e.Call.FnSym != nil {
+						if d, ok := userCode(e.Call.FnSym); ok {
+							return false, "calls the handler's " + d + " while holding tw.mu at " + c.P.Pos(e.Pos)
+						}
+					}
+					for _, a := range e.Call.Args {
+						if d, ok := userCode(a); ok {
+							return false, "hands the handler's " + d + " to " + e.Call.Name() + " while holding tw.mu at " + c.P.Pos(e.Pos) + " (the callee runs it under the mutex)"
+						}
+					}
+				}
+			}
+			return true, ""
+		})
+	}
+	c.R.Min(rule, 5, "exported methods of timeoutWriter")
 }
